@@ -8,6 +8,6 @@ SPEC = dict(
     text="An accepted validation implies that the recorded balance of each pool token, minus what is still to be paid out, covers liquidity + swap impact + claimable fees and separately all position collateral; every modelled operation ends with every touched market covered; for every token the recorded balances of all markets sharing the vault never exceed the vault, for all histories.",
     level_note="Partial: the history-level theorem is about the bank-level model whose operations mirror the compositions found in the handlers (MarketTransferIn/Out, swap hops and shifts with validation of the giving market, unchecked_deposit/withdraw and order execution as 'validate with outputs excluded, then pay out', claim_fees_from_market); that the handlers use only these compositions, the SPL transfers (vault counter), and funding-fee / GT / builder-fee flows are read, not executed. The real instruction entrypoints are not run. Pool amounts are unsigned (op_wf).",
     design_ref="DESIGN.md section 6, C22",
-    explanation="Val: the three validation functions on one real market with balances straddling both thresholds (also pure markets); Hist: 4 real markets over 3 tokens sharing vaults.",
+    explanation="Val: the three validation functions on one real market with balances straddling both thresholds (also pure markets); Hist: 4 real markets over 3 tokens sharing vaults; SwapVault: the real SwapMarkets::revertible_swap committed over 8 real markets sharing 4 vaults (paths ending in the current market included), oracle: recorded balances per token conserved and within the ghost vault counter.",
     shard=100,
 )
